@@ -77,14 +77,34 @@ Proof. exact refresh_replay. Qed.
 Theorem C39_revoked_is_final : forall ct us o, os_state o = SRevoked -> os_state (sweep_os ct us o) = SRevoked.
 Proof. exact sweep_os_revoked. Qed.
 
-(* Tokens whose OAuth2 session record is revoked, or whose parent session record is revoked, or
-   whose account is outside its validity window are refused by the refresh exchange (for every
-   client, secret and scope request, leaving the account unchanged), by introspection
-   (inactive) and by userinfo. PARTIAL with respect to the property's "or has expired" for
-   SESSIONS: see C39_refuted_lapsed. *)
-Theorem C39_dead_session_rejected_partial : forall cf s t ct,
+(* Tokens whose OAuth2 session record is revoked or past its expiry, or whose parent (login)
+   session record is revoked or past its expiry, or whose account is outside its validity
+   window are refused by the refresh exchange (for every client, secret and scope request,
+   leaving the account unchanged), by introspection (inactive) and by userinfo — whether or
+   not the consistency sweep has already turned the expired session into a revoked one. *)
+Theorem C39_dead_session_rejected : forall cf s t ct,
   dead s t ct -> refused_everywhere cf s t ct.
 Proof. intros cf s t ct H. apply invalid_refused. apply dead_invalid. exact H. Qed.
+
+(* ... spelled out for the case found by this check (K2, fixed by 8607e8e): an expired parent
+   session that nothing has swept yet. *)
+Theorem C39_lapsed_session_rejected : forall cf s t ct,
+  lapsed s t ct -> refused_everywhere cf s t ct.
+Proof. intros cf s t ct H. apply C39_dead_session_rejected. apply lapsed_dead. exact H. Qed.
+
+(* What `dead` means for a session record. *)
+Theorem C39_session_over_iff : forall ct st,
+  live_at ct st = false <-> st = SRevoked \/ exists e, st = SExpires e /\ e <= ct.
+Proof. exact live_at_false. Qed.
+
+(* Documentation of the behaviour BEFORE fix 8607e8e: the validity function that only looked for
+   RevokedAt accepted a token whose parent session had expired 100 s earlier; the current one
+   reports it inactive. *)
+Theorem C39_prefix_lapsed_accepted :
+  lapsed k2_st k2_tok (10500 * NS) /\
+  acct_valid_prefix k2_st (t_sid k2_tok) (t_parent k2_tok) (t_iat k2_tok) (10500 * NS) = true /\
+  introspect k2_tok false (10500 * NS) k2_st = RIntro false [].
+Proof. exact (conj k2_lapsed (conj k2_prefix_valid k2_now_inactive)). Qed.
 
 (* Expired tokens are refused by all three endpoints. *)
 Theorem C39_expired_token_rejected : forall cf s t ct,
@@ -100,22 +120,18 @@ Proof. exact foreign_client_refused. Qed.
 
 (* ---------------------------------------------------------------- the full statement and its refutation *)
 
-(* (a) dead OR LAPSED (parent session past its expiry) tokens are refused everywhere *)
-Definition C39_full_lapsed : Prop :=
-  forall cf s t ct, dead s t ct \/ lapsed s t ct -> refused_everywhere cf s t ct.
+(* (a) dead tokens (revoked or expired session / parent session, account outside its window) are
+   refused everywhere — proved: C39_dead_session_rejected *)
+Definition C39_full_dead : Prop :=
+  forall cf s t ct, dead s t ct -> refused_everywhere cf s t ct.
 (* (b) in every history with non-decreasing clocks, a refresh token that is no longer the latest
    issuance of its session is refused when presented by its own, authenticated client *)
 Definition C39_full_replay : Prop :=
   forall h cf us ops, times_sorted 0 ops = true -> reuse_refused h cf 0 (env0 us) ops = true.
-Definition C39_full_statement : Prop := C39_full_lapsed /\ C39_full_replay.
+Definition C39_full_statement : Prop := C39_full_dead /\ C39_full_replay.
 
-(* K2: parent session expired at 10400 s, nothing modified the account since; at 10500 s the
-   access token is still reported active. *)
-Theorem C39_refuted_lapsed : ~ C39_full_lapsed.
-Proof.
-  intros H. destruct (H [] k2_st k2_tok (10500 * NS) (or_intror k2_lapsed)) as (_ & Hi & _).
-  rewrite k2_active in Hi. discriminate.
-Qed.
+Theorem C39_full_dead_holds : C39_full_dead.
+Proof. exact C39_dead_session_rejected. Qed.
 
 (* K1: code exchange and first refresh within one clock second; the rotated first refresh token
    is accepted again 40 s later. *)
@@ -126,4 +142,4 @@ Proof.
 Qed.
 
 Theorem C39_refuted : ~ C39_full_statement.
-Proof. intros [H _]. exact (C39_refuted_lapsed H). Qed.
+Proof. intros [_ H]. exact (C39_refuted_replay H). Qed.
